@@ -320,6 +320,18 @@ def families(tier, ua):
                         yield 'E3.fwd', mk(ua, headers=hs, http_version='1.0', **kw)
                     else:
                         yield 'E3.fwd', mk(ua, headers=hs, **kw)
+    # E3c' every kind of Forwarded value (valid / partial / element-less) x every subset of the X-Forwarded-* / X-Real-IP
+    #      fallbacks x scheme: which header wins must not depend on the stack
+    fkinds = ['for=192.0.2.60;proto=https;host=fwd.example.org', 'for=192.0.2.60', 'proto=http', 'host=only.example.org', '', ',',
+              'unknown', 'garbage;;', 'for=_a, for=_b;proto=https', ';', 'for=']
+    others = {'X-Forwarded-For': '203.0.113.7', 'X-Forwarded-Proto': 'wss', 'X-Forwarded-Host': 'xfh.example.org', 'X-Real-IP': '198.51.100.9'}
+    onames = list(others)
+    for fk in fkinds:
+        for mask in range(16):
+            hs = [['Forwarded', fk]] + [[n, others[n]] for i, n in enumerate(onames) if mask >> i & 1]
+            for scheme in (('http', 'https') if thorough or mask in (0, 2, 15) else ('http',)):
+                yield 'E3.fwd-kinds', mk(ua, target='/items', headers=hs, scheme=scheme,
+                                         server=['falconframework.org', 80 if scheme == 'http' else 443])
     # E3d Host header forms x scheme (user-supplied Host through the simulators: DESIGN 'already observed')
     for hv in HOST_VALUES:
         for scheme in ('http', 'https'):
@@ -431,6 +443,17 @@ def families(tier, ua):
                 req['script'] = default_script()
                 finalize(req)
                 yield 'E6.sim-ows', with_sim(req, ua, stl)
+    # E6c documented alternative argument forms (string port, version aliases, str body, root path without slash)
+    for scheme in ('http', 'https'):
+        for port in (80, 443, 8080):
+            for hv in ('1.1', '1.0', '2'):
+                for stl in ({'port_str': True}, {'port_str': True, 'http_version_alias': True, 'root_no_slash': True, 'body_str': True}):
+                    req = new_request(method='POST', target='/items', scheme=scheme, server=['falconframework.org', port],
+                                      http_version=hv, root_path='/api', body='{"k": "caf\xc3\xa9"}',
+                                      headers=[['Content-Type', 'application/json']])
+                    req['script'] = script(read={'mode': 'media_default'})
+                    finalize(req)
+                    yield 'E6.sim-arg-forms', with_sim(req, ua, stl)
     for stl in styles:
         for m in ('GET', 'POST', 'OPTIONS'):
             for body in ('', '{"a": 1}'):
@@ -595,7 +618,8 @@ def rand_request(rng, ua):
         style = {}
         for k in ('explicit_host', 'explicit_port', 'explicit_remote', 'empty_root_arg', 'empty_query_arg', 'empty_body_arg',
                   'content_type_param', 'cookies_param', 'headers_as_dict', 'explicit_cl', 'content_type_conflict', 'json_param',
-                  'inline_query', 'inline_query', 'inline_empty', 'params_empty', 'params_dict'):
+                  'inline_query', 'inline_query', 'inline_empty', 'params_empty', 'params_dict', 'port_str', 'http_version_alias',
+                  'root_no_slash', 'body_str'):
             if rng.random() < 0.12:
                 style[k] = True
         if rng.random() < 0.15:
